@@ -272,30 +272,39 @@ mut("c15_negative_tick_start_check", "C15", [
 ], "a query for a negative tick returns a (negative) time", also=("C11",))
 
 # ---------------------------------------------------------------------------------------- C11
-mut("c11_note_end_hint_plus_one", "C11", [
+mut("c11_sustain_end_at_start_tempo", "C11", [
     ("chartparse/instrument.py",
      '''        end_timestamp, _ = bpm_events.timestamp_at_tick(
             end_tick, start_iteration_index=proximal_bpm_event_index
-        )''',
+        )
+''',
      '''        end_timestamp, _ = bpm_events.timestamp_at_tick(
-            end_tick,
-            start_iteration_index=min(proximal_bpm_event_index + 1, len(bpm_events) - 1)
-            if longest_sustain
-            else proximal_bpm_event_index,
-        )'''),
-], "a sustained note that ends before the next tempo change: ValueError or misplaced end time", also=("C17", "C13"))
+            end_tick, start_iteration_index=proximal_bpm_event_index
+        )
+        if longest_sustain and bpm_events.events and (
+            len(bpm_events) > proximal_bpm_event_index + 2
+        ):
+            # "fast path": no need to walk the tempo map again for the end of the sustain
+            end_timestamp = chartparse.time.add(
+                timestamp,
+                chartparse.tick.seconds_from_ticks_at_bpm(
+                    longest_sustain, bpm_events[proximal_bpm_event_index].bpm, bpm_events.resolution
+                ),
+            )
+'''),
+], "a sustain that crosses a tempo change while at least two more tempo events follow: end time silently computed at the wrong tempo", also=("C17",))
 
-mut("c11_scan_stops_early", "C11", [
+mut("c11_scan_gives_up_after_four", "C11", [
     ("chartparse/sync.py",
      '''        for index in range(start_iteration_index, index_of_last_event):
             if self[index + 1].tick > tick:
                 return index''',
      '''        for index in range(start_iteration_index, index_of_last_event):
-            if self[index + 1].tick > tick or index > start_iteration_index + 1:
+            if self[index + 1].tick > tick or index > start_iteration_index + 3:
                 return index'''),
-], "a tick three or more tempo events past the hint: silently governed by the wrong tempo")
+], "a tick five or more tempo events past the hint is silently governed by the wrong tempo")
 
-mut("c11_unsorted_events_accept_stale_hint", "C11", [
+mut("c11_stale_hint_accepted_deep_in_map", "C11", [
     ("chartparse/sync.py",
      '''        first_event = self[start_iteration_index]
         if first_event.tick > tick:
@@ -304,12 +313,12 @@ mut("c11_unsorted_events_accept_stale_hint", "C11", [
             )''',
      '''        first_event = self[start_iteration_index]
         if first_event.tick > tick:
-            if start_iteration_index == 0:
+            if start_iteration_index < 4:
                 raise ValueError(
                     f"input tick {tick} precedes tick value of first BPMEvent ({first_event.tick})"
                 )
             return start_iteration_index'''),
-], "body lines out of tick order: an event behind its predecessor silently gets a time from the wrong tempo", also=("C15",))
+], "body lines out of tick order deep in a long tempo map: an event behind its predecessor silently gets a time from the wrong tempo", also=("C15",))
 
 # ---------------------------------------------------------------------------------------- C18
 mut("c18_keyerror_escapes", "C18", [
